@@ -402,6 +402,10 @@ func (m *c16Muts) add(site, kind string, f func()) {
 	m.list = append(m.list, c16Mut{site: site, kind: kind, apply: f})
 }
 
+// c16ExtraField: a field name that is valid only when the schema has been extended with it (see the
+// schema-change sequences of c16Gen)
+const c16ExtraField = "zz9"
+
 func sameLenUnknown(s string) string {
 	if len(s) == 0 {
 		return "q"
@@ -426,6 +430,7 @@ func (m *c16Muts) fieldRef(site string, p *string) {
 		m.add(site, "unknown-field-prefix", set(orig[:len(orig)-1]))
 	}
 	m.add(site, "unknown-field-dollar", set("$"+orig))
+	m.add(site, "use-extra-field", set(c16ExtraField))
 }
 
 func (m *c16Muts) fieldList(site string, p *[]string, mayBeEmpty bool, dupOK bool) {
@@ -461,6 +466,7 @@ func (m *c16Muts) num(site string, p *cNum, vals []int64) {
 
 func (m *c16Muts) template(site string, p *string, v string) {
 	set := func(x string) func() { return func() { *p = x } }
+	m.add(site, "use-extra-field", set("x$"+c16ExtraField+" ${"+c16ExtraField+"[1:]}"))
 	for _, x := range []string{"$nosuchfield", "${nosuchfield}", "${nosuchfield[1:]}", "a$$b", "$$", "${" + v, "${" + v + "[1:}", "${" + v + "[1:2]", "$", "a$", "${}", "${ " + v + "}",
 		"${" + v + "[a:b]}", "${" + v + "[1]}", "${" + v + "[+1:]}", "${" + v + "[1:2:3]}", "${" + v + "[1 :]}", "${" + v + "[--1:]}", "$-", "${" + v + "]}",
 		"${" + v + "[99999999999999999999:]}", "${" + v + "[:99999999999999999999]}", "${" + v + "[-99999999999999999999:]}", "${" + v + "[:-99999999999999999999]}",
@@ -1021,6 +1027,36 @@ func c16Gen(g *Gen) {
 			mu := c16AllMuts(bad)[i]
 			mu.apply()
 			seq("sequence", b.mk(), bad, b.mk(), bad, bad, b.mk())
+		}
+	}
+	// schema-change sequences: the same file with and without a schema field that is referenced at exactly
+	// one site, loaded alternately by one process (a verification result must not outlive the schema it was made for)
+	for _, b := range bases {
+		withExtra := func() *cConfig {
+			c := b.mk()
+			c.Fields = append(c.Fields, c16ExtraField)
+			if !c.MaxFields.Bad && c.MaxFields.V < int64(len(c.Fields)) {
+				c.MaxFields = numOk(int64(len(c.Fields)))
+			}
+			return c
+		}
+		n := len(c16AllMuts(withExtra()))
+		cnt := 0
+		for i := 0; i < n; i++ {
+			a := withExtra()
+			mu := c16AllMuts(a)[i]
+			if mu.kind != "use-extra-field" {
+				continue
+			}
+			cnt++
+			if !g.Thorough() && b.name == "sample" && cnt%3 != 0 {
+				continue
+			}
+			mu.apply()
+			a2 := withExtra()
+			c16AllMuts(a2)[i].apply()
+			a2.Fields = a2.Fields[:len(a2.Fields)-1]
+			seq("sequence-schema-change", a, a2, a, a2)
 		}
 	}
 	// random valid configurations, each with random substitutions and a sequence
